@@ -1,6 +1,6 @@
 """C03 — lexing and parsing are total: never panic, hang or misplace an error.
 (1) Rust engine: every string over a 26-character alphabet up to length n, three modes, four start offsets (0, 1, 2^31, 2^32-2-len);
-(2) every sequence of <=2/3 lexemes; (3) every single-character deletion / duplication / adjacent transposition of every corpus sentence;
+(2) every sequence of <=2/3 lexemes; (3) every single-character deletion / duplication / adjacent transposition / replacement by a 2-byte character / insertion of a 3-byte character of every corpus sentence;
 (4) scaling families k = 1..4096: no panic / abort up to k = 1024 on an 8 MiB stack, step count (hook H2) at most cubic."""
 import time, json, subprocess, math
 from .. import common as C, gref, corpus as K, explore as X, relcheck as R
@@ -16,10 +16,14 @@ SIZES = [1, 2, 4, 8, 16, 32, 64, 128, 256, 512, 1024, 2048, 4096]
 REALISTIC = 1024
 
 
+LAYOUT_LEX = R.LAYOUT_LEX
+
+
 def mutations(text):
     seen = set()
     for i in range(len(text)):
-        for m in (text[:i] + text[i + 1:], text[:i] + text[i] + text[i:], (text[:i] + text[i + 1] + text[i] + text[i + 2:]) if i + 1 < len(text) else None):
+        for m in (text[:i] + text[i + 1:], text[:i] + text[i] + text[i:], (text[:i] + text[i + 1] + text[i] + text[i + 2:]) if i + 1 < len(text) else None,
+                  text[:i] + 'é' + text[i + 1:], text[:i] + '€' + text[i:]):
             if m is not None and m != text and m not in seen:
                 seen.add(m)
                 yield m
@@ -74,6 +78,9 @@ def run_shard(args):
         return run_family(args)
     if kind == 'literals':
         texts = [(t, 'literal forms: ' + g) for g, t in args[1]]
+    elif kind == 'layoutlex':
+        _, n, shard = args
+        texts = [(t, 'layout lexemes n=%d' % l) for t, l in X.shard_strings(LAYOUT_LEX, n, shard)]
     elif kind == 'lexemes':
         _, n, shard = args
         texts = [(t, 'lexemes n=%d' % l) for t, l in X.shard_strings(c05.LEXEMES, n, shard)]
@@ -96,6 +103,8 @@ def run(tier, seed):
     jobs += [('family', f) for f in FAMILIES]
     nl = 2 if tier == 'quick' else 3
     jobs += [('lexemes', nl, s) for s in X.prefix_shards(c05.LEXEMES, nl, 1)]
+    ln = 4 if tier == 'quick' else 6
+    jobs += [('layoutlex', ln, s) for s in X.prefix_shards(LAYOUT_LEX, ln, 1 if tier == 'quick' else 2)]
     lits = [x for gen in (c06.esc_cases, c06.prefix_cases, c06.newline_cases, c06.concat_cases) for x in gen(tier) if tier != 'quick' or x[0] != 'escape-u']
     if tier != 'quick':
         lits += list(c06.name_cases(tier))
@@ -116,9 +125,9 @@ def run(tier, seed):
     total.extra['family_table'] = table
     rule = ('(1) every string of length<=%d over the 26-character alphabet (incl. NUL-free control, CR/LF/FF, BOM, 2/3/4-byte characters) and of length<=%d over its first 14 characters, x 3 modes x '
             'start offsets {0, 1, 2^31, 2^32-2-len}: no panic (overflow checks on), Err.offset in [start, start+len] on a character boundary, token stream finite up to its first error; (2) every '
-            'sequence of <=%d lexemes of the %d-lexeme set; (3) every single-character deletion/duplication/adjacent transposition of every G_ref sentence with <=%d non-default alternatives; (4) every literal form of the C06 escape/prefix/newline/concatenation corpus (all octal escapes 0..0o777, all \\xHH, every \\c%s); (5) %d scaling '
+            'sequence of <=%d lexemes of the %d-lexeme set and of <=%d lexemes of the 16-lexeme layout set (indentation pieces, continuations, line breaks, comment, form feed, block opener, brackets, BOM); (3) every single-character deletion/duplication/adjacent transposition/replacement by U+00E9/insertion of U+20AC of every G_ref sentence with <=%d non-default alternatives; (4) every literal form of the C06 escape/prefix/newline/concatenation corpus (all octal escapes 0..0o777, all \\xHH, every \\c%s); (5) %d scaling '
             'families at k=1..4096 in sub-processes on an 8 MiB stack: no panic/abort/hang up to k=%d, steps(2k) <= 9*steps(k) for k>=64 (hook H2); states = distinct inputs, transitions = parser/lexer runs + steps'
-            % (4 if tier == 'quick' else 5, 5 if tier == 'quick' else 6, nl, len(c05.LEXEMES), d, ', all \\uXXXX, every \\N{name}' if tier != 'quick' else '', len(FAMILIES), REALISTIC))
+            % (4 if tier == 'quick' else 5, 5 if tier == 'quick' else 6, nl, len(c05.LEXEMES), ln, d, ', all \\uXXXX, every \\N{name}' if tier != 'quick' else '', len(FAMILIES), REALISTIC))
     return C.finish(PROP, tier, seed, t0, total, rule,
                     ['release build with overflow-checks and debug-assertions on; panics are caught per case, aborts/hangs are observed per sub-process', 'step counter H2 (parser/src/verif.rs) for the growth claim; '
                      '"realistic nesting" = 1024 levels (CPython itself stops at 200 brackets / 100 indents)'])
